@@ -134,7 +134,7 @@ def run_prog_case(case):
     table, (pi, m, n, order, a, kind, sk, arr, cval) = case
     r = RECS[pi]
     c = r['c'][0] / r['c'][1]
-    f0 = exprs.make_fun(r['prog'], c, a, powop=(pi + n + order) % 2 == 0, p=r.get('p', 0.0))
+    f0 = exprs.make_fun(r['prog'], c, a, powop=['int', False, 'float', False, 'npint', False][(pi + n + order) % 6], p=r.get('p', 0.0))
     jf = np.array(exprs.jet_floats(r['jet']))
     s0 = float(np.max(np.abs(jf)))
     seen = [0.0, 0.0]
